@@ -52,6 +52,14 @@ def dict_noclobber(items):
     return _Items(items)
 
 
+# texts of trailing extra columns: ordinary text, empty, and texts that are valid JSON documents on their own (a bare
+# number such as an overlap count, a quoted word, true/false/null, an array, an object) - a column is text whatever it
+# looks like, alone or among several
+JSON_EXTRA = ["12", "0.50", "true", "null", '"foo"', "[1,2]", "-3", "1e5", "false", "[]", "{}", '{"a":1}', '["x"]',
+              '""', "0", "NaN"]
+EXTRA_POOL = ["", "x", "extra col", "1"] + JSON_EXTRA
+
+
 def rand_value(r, fmt, clean):
     n = r.choice([1, 1, 2, 3, 5, 8])
     out = []
@@ -133,7 +141,7 @@ def rand_spec(r, valid=True):
         if not s.attrs:
             s.sep, s.trailing, s.style, s.quoted, s.repeated = ";", False, "eq", False, False
     s.cols = rand_cols(r, wild=not valid and r.random() < 0.5)
-    s.extra = [r.choice(["", "x", "extra col", "1"]) for _ in range(r.choice([0, 0, 0, 1, 2, 3]))]
+    s.extra = [r.choice(EXTRA_POOL if r.random() < 0.5 else EXTRA_POOL[:4]) for _ in range(r.choice([0, 0, 0, 1, 1, 2, 3]))]
     if not valid:
         # perturb one thing
         p = r.randrange(8)
